@@ -399,6 +399,14 @@ type RawContent []byte
 // don't distinguish between ordered and unordered objects in this code.
 func parseTagAndLength(bytes []byte, initOffset int) (ret tagAndLength, offset int, err error) {
 	offset = initOffset
+	// An explicitly tagged element whose content is missing (its header is the
+	// last thing in the enclosing value) makes parseField call this with
+	// offset == len(bytes); as in encoding/asn1 that is an error, not an
+	// index out of range.
+	if offset >= len(bytes) {
+		err = SyntaxError{"truncated tag or length"}
+		return
+	}
 	b := bytes[offset]
 	offset++
 	ret.class = int(b >> 6)
